@@ -39,8 +39,8 @@ class UbxFrame(object):
         msg.append(self.CID.id)
 
         length = len(self.data)
-        msg.append((length >> 0) % 0xFF)
-        msg.append((length >> 8) % 0xFF)
+        msg.append((length >> 0) & 0xFF)
+        msg.append((length >> 8) & 0xFF)
 
         msg += self.data
         msg.append(self.cka)
